@@ -359,6 +359,7 @@ pub fn handle(req: &Value) -> Value {
                     "t2" => one::<T2>(s),
                     "sha256" => one::<sha2::Sha256>(s),
                     "sha512" => one::<sha2::Sha512>(s),
+                    "unit" => one::<()>(s),
                     _ => panic!("digest"),
                 });
             }
